@@ -1545,6 +1545,14 @@ def result_type(*args):
     return {'bool': bool, 'int': int, 'float': float, 'object': object}[r]
 
 
+def fill_diagonal(a, val, wrap=False):
+    if not isinstance(a, ndarray) or a.ndim != 2:
+        _unsupported("fill_diagonal on non-2d")
+    n = builtins.min(a.shape)
+    for i in range(n):
+        a[i, i] = val
+
+
 def unravel_index(i, shape):
     i = _index(i)
     shape = tuple(shape)
